@@ -117,6 +117,9 @@ class SymRandom(random.Random):
         self.uniforms = []
         self.samples = []
         self.on_draw = None
+        self.last_g_list = []
+        self.last_weights = None
+        self.last_choice = None
 
     def sample(self, population, k, *, counts=None):
         pop = list(population)
@@ -148,6 +151,7 @@ class SymRandom(random.Random):
     def gauss(self, mu=0.0, sigma=1.0):
         self.n += 1
         self.last_g = self.g.real(f"{self.tag}_g{self.n}")
+        self.last_g_list.append(self.last_g)
         return mu + sigma * self.last_g
 
     def choices(self, population, weights=None, *, cum_weights=None, k=1):
@@ -157,4 +161,6 @@ class SymRandom(random.Random):
         if weights is not None:
             w = weights[c]
             self.g.assume(w > 0)
+            self.last_weights = list(weights)
+        self.last_choice = c
         return [pop[c]]
